@@ -22,6 +22,11 @@ E == Tr[l]
 
 TraceInit == l = 1 /\ bad = <<>> /\ stats = [scenarios |-> 0, results |-> 0, rejected |-> 0]
 
+\* device cgroup rules: one allow rule "type|major|minor" per device the adjustment sets, in list order
+SepPos(v) == SelectSeq([i \in 1..Len(v) |-> i], LAMBDA i : SubSeq(v, i, i) = "|")
+Prefix3(v) == IF Len(SepPos(v)) >= 3 THEN SubSeq(v, 1, SepPos(v)[3] - 1) ELSE v
+ExpDevc == LET sets == SelectSeq(E.adj.dev, LAMBDA d : ~IsMarked(d.k)) IN [i \in DOMAIN sets |-> Prefix3(sets[i].v)]
+
 Expected == OciApply(ToOci(Core(E.orig, ContFields)), Core(E.adj, DOMAIN EmptyAdjust))
 
 Labels ==
@@ -30,6 +35,7 @@ Labels ==
   IN (IF \E i \in DOMAIN E.gerrs : E.gerrs[i] # "" THEN {"C13-generator-error"} ELSE {})
      \cup (IF wrong # {} THEN {"C13-result"} ELSE {})
      \cup (IF \E i \in DOMAIN E.rests : E.rests[i] # E.rest0 THEN {"C13-frame"} ELSE {})
+     \cup (IF \E i \in DOMAIN R : R[i].devc # ExpDevc THEN {"C13-device-rules"} ELSE {})
      \* repetitions 1, 3, .. start from the original's mounts listed parents-first, 2, 4, .. children-first
      \cup (IF \E i \in DOMAIN R : R[i] # R[IF i % 2 = 1 THEN 1 ELSE 2] THEN {"C13-determinism"} ELSE {})
      \* once a mount adjustment was made the order no longer depends on the order the runtime listed its mounts in
